@@ -19,9 +19,9 @@ import (
 type ruleFunc func(c *Ctx)
 
 type Ctx struct {
-	P    *Program
-	R    *Report
-	Tier string
+	P     *Program
+	R     *Report
+	Tier  string
 	Verif string
 }
 
@@ -39,6 +39,9 @@ func register(id, explanation string, rules ...ruleFunc) {
 }
 
 func main() {
+	if len(os.Args) > 1 && os.Args[1] == "concrete" {
+		os.Exit(concreteMain(os.Args[2:]))
+	}
 	if len(os.Args) > 1 && os.Args[1] == "replay" {
 		os.Exit(replay(os.Args[2:]))
 	}
